@@ -24,6 +24,10 @@ func kindLabel(k kase) string {
 	if k.Reuse {
 		kind += "+reuse"
 	}
+	if k.Cut != nil {
+		// the reply is cut: where and how is part of the class, the offset is not
+		kind += "+cut(" + k.Cut.Where + "," + k.Cut.Ending + ")"
+	}
 	return kind
 }
 
@@ -33,7 +37,7 @@ func classKey(k kase, f finding) string {
 
 func baseKey(k kase, f finding) string { return k.Transport + "|" + f.Dir + "|" + f.Clause }
 
-func primary(k kase) bool { return k.RPC2 == nil && !k.GC && !k.Reuse }
+func primary(k kase) bool { return k.RPC2 == nil && !k.GC && !k.Reuse && k.Cut == nil }
 
 func plain(k kase) bool { return k.SendRep == "gen" && k.RecvRep == "gen" }
 
@@ -136,7 +140,11 @@ func rank(k kase) []int {
 	if k.RecvRep == "dyn" {
 		dyn++
 	}
-	return []int{pair, herr, n, shapeByName[k.Shape].Index, dyn, kindIdx(k.RPC.Kind)}
+	off, end := 0, 0
+	if k.Cut != nil {
+		pair, off, end = 4, k.Cut.Off, endingIdx(k.Cut.Ending)
+	}
+	return []int{pair, herr, n, shapeByName[k.Shape].Index, dyn, kindIdx(k.RPC.Kind), off, end}
 }
 
 func lessCase(x, y kase) bool {
